@@ -26,6 +26,27 @@ CUR = [("A(0) U(0,1) W(0) R(0,0,0) Z", {}), ("A(0) U(0,0) W(0) W(0) R(0,0,0) R(0
 ALPHA = ["U(0,0)", "U(0,1)", "U(0,2)", "U(1,1)", "N(0,1)", "N(0,0)", "W(0)", "WK(0,1)", "WK(0,4)", "R(0,%d,0)", "R(0,%d,1)", "R(1,%d,0)", "P(0,0)"]
 
 
+PUB_CUR = ["A(0) S(0,1) T(0,1) Z", "S(0,1) Z", "S(0,0) A(0) S(1,0) T(0,1) Z", "A(0) A(1) S(0,1) S(1,0) T(0,1) T(1,1) T(0,1) T(1,1) Z",
+           "B(1) A(0) S(0,1) S(1,1) S(2,1) S(3,0) T(0,1) T(0,1) Z", "B(2) A(0) A(1) S(0,0) S(1,0) S(2,0) S(3,0) T(0,1) T(1,1) T(0,1) Z",
+           "B(2) A(0) S(0,1) S(1,1) S(2,1) B(1) T(0,1) T(0,1) Z", "B(1) A(0) S(0,1) S(1,1) B(2) S(2,1) S(3,1) T(0,1) T(0,1) T(0,1) Z",
+           "A(0) S(0,1) T(0,0) Z", "A(0) S(0,1) C(0) S(1,1) Z", "A(0) W(0) Z", "B(1) A(0) A(1) S(0,1) S(1,1) C(0) S(2,1) T(1,1) T(1,1) Z",
+           "B(1) A(0) S(0,1) S(1,1) S(2,1) T(0,1) S(3,1) T(0,1) T(0,1) Z", "A(0) S(0,1) S(1,1) Z", "B(2) A(0) S(0,0) S(1,0) S(2,0) C(0) A(0) S(3,0) T(0,1) Z"]
+PUB_ALPHA = ["A(0)", "A(1)", "S(%d,1)", "S(%d,0)", "T(0,1)", "T(1,1)", "T(0,0)", "C(0)", "W(0)", "B(1)", "B(2)"]
+
+
+def pub_queries(tier):
+    qs = []
+    words = list(PUB_CUR) + skel.enumerate_words(PUB_ALPHA, 3 if tier == "quick" else 4, first=["A(0)", "S(%d,1)", "B(1)"], limit=60 if tier == "quick" else 3000)
+    seen = set()
+    for w in words:
+        if w in seen:
+            continue
+        seen.add(w)
+        qs.append(Query("pub-" + skel.tag(w), "c05/pub.c", tus=TUS, env=ENV, defs={"SKEL": w}, unwind=10, unwind_rules=KIT_RULES, timeout=300,
+                        params={"protocol": "pub0", "skeleton": w}))
+    return qs
+
+
 def queries(tier):
     qs = []
     words = list(CUR)
@@ -49,6 +70,7 @@ def queries(tier):
             dd = dict(d)
             dd["SYMTOPICS"] = 1
             words.append((w, dd))
+    qs += pub_queries(tier)
     seen = set()
     for w, d in words:
         k = (w, tuple(sorted(d.items())))
